@@ -72,6 +72,8 @@ Inductive input :=
 | InProposal (p : proposal)
 | InBlock (h r : N) (b : block)     (* every part of b's part set, as BlockPartMessage{h,r,part} *)
 | InNilPart (h r : N)               (* BlockPartMessage with a nil part (own incomplete ValidBlockParts) *)
+| InBadBlock (h r : N) (hdr : N)    (* every part of a part set whose bytes do not decode to a block that
+                                       passes Block.ValidateBasic (BlockFromProto fails) *)
 | InVote (peer : N) (v : vote)      (* peer 0 = the internal queue (peerID "") *)
 | InTimeout (h r : N) (st : step_t).
 
@@ -555,6 +557,18 @@ Definition add_block (h r : N) (b : block) (s : nstate) : nstate :=
       else s2
   end.
 
+(** addProposalBlockPart when the completed bytes are not a well-formed block: the part set is
+    complete (further parts are duplicates), ProposalBlock is left as it was, the error is returned *)
+Definition add_bad_block (h r : N) (hdr : N) (s : nstate) : nstate :=
+  if negb (height s =? h) then s else
+  match pparts s with
+  | None => s
+  | Some ps =>
+    if negb (ps_hdr ps =? hdr) then s
+    else if ps_complete s ps then s
+    else set_ps_done (ps_id ps :: ps_done s) s
+  end.
+
 (** HeightVoteSet.AddVote followed by VoteSet.AddVote; returns the new state and "added" *)
 Definition hvs_add (peer : N) (v : vote) (s : nstate) : nstate * bool :=
   let go := fun s' =>
@@ -664,6 +678,7 @@ Definition handle (i : input) (s : nstate) : nstate :=
   | InBlock h r b => add_block h r b s
   | InNilPart h r => if negb (height s =? h) then s
                      else match pparts s with None => s | Some _ => panic s end
+  | InBadBlock h r hdr => add_bad_block h r hdr s
   | InVote peer v => if bid_wf (v_bid v) then add_vote peer v s else s
   | InTimeout h r st =>
     if existsb (tinfo_eqb (h, r, st)) (timeouts s)
